@@ -348,6 +348,36 @@ def _expanded(v: Any, depth: int = 0) -> bool:
     return False
 
 
+def reach_loop(ctx: Ctx, I: Interp) -> None:
+    """Every path of TagList.tagify that returns normally has passed through the expansion loop, unless the path has
+    established that the list is empty (all element counts of the receiver are 0): a path that returns a copy without looking
+    at the children (a marker set by an earlier call, a cached result) leaves objects un-expanded."""
+    cfg = Config()
+    cfg.opaque_all = True
+    cfg.stop_at_loop = ("TagList.tagify", 0)
+
+    def mk(run: Any):
+        s = SObj("self", {"TAGLIST"})
+        return ({"self": s}, s)
+
+    n = 0
+    for l in I.run_function(CORE, "TagList.tagify", mk, cfg):
+        if getattr(l.run, "stop_loop_record", None) is not None:
+            n += 1
+            continue
+        if l.kind != "return":
+            continue
+        dom = getattr(l.run, "count_dom", {}) or {}
+        empty = bool(dom) and all(set(v) == {0} for v in dom.values())
+        conds = [lbl for _, lbl in l.atoms]
+        ctx.check(empty, "C09.reach", "a path of TagList.tagify that returns without entering the expansion loop has an empty receiver", TLT,
+                  f"returns {short(l.value)} before the loop under {conds}",
+                  f"TagList.tagify returns {short(l.value)} without examining the children when {conds}: tagifiable objects placed in the "
+                  f"list are not expanded on that path",
+                  witness="y = TagList(div()).tagify(); y[0].append(T()); y.tagify()  # T has tagify() only")
+    ctx.min_count("tagify paths through the loop", n, 1)
+
+
 def check(ctx: Ctx) -> None:
     ctx.explanation = (
         "Splice safety of TagList.tagify: the index loop is recognised as descending (any splice is safe), as a forward loop into "
@@ -364,6 +394,7 @@ def check(ctx: Ctx) -> None:
     I = Interp(ctx.prog)
     splice_safety(ctx)
     splice_shape(ctx, I)
+    reach_loop(ctx, I)
     tagify_table(ctx, I)
     tag_tagify_shape(ctx, I, rule="C09.tagify")
     # tagifiable objects below a component (children, nested tags, prop values) are reached by the conversion's walk, and
